@@ -114,6 +114,43 @@ def run_model(name, tier, negative=None):
     return res
 
 
+PROOFS = {"IterAbsProofs": ["C06", "C07", "C08"], "PrimProofs": ["C01", "C03", "C07"]}
+
+
+def run_proof(name):
+    """TLAPS: unbounded companions of theorems that TLC checks on small instances (spec/proofs).  Like the design-level
+    models they depend on the specification only; an unproved obligation is a tool error, never a verdict."""
+    import subprocess, shutil, re, time
+    from tlc import SPEC
+    d = stimuli.stim_dir()
+    cache = os.path.join(d, f"proof_{name}.json")
+    if os.path.exists(cache):
+        return json.load(open(cache))
+    rundir = os.path.join(d, f"run_proof_{name}")
+    shutil.rmtree(rundir, ignore_errors=True)
+    os.makedirs(rundir)
+    for f in os.listdir(os.path.join(SPEC, "proofs")):
+        if f.endswith(".tla"):
+            shutil.copy(os.path.join(SPEC, "proofs", f), rundir)
+    t0 = time.time()
+    try:
+        p = subprocess.run(["tlapm", "--threads", "6", "-I", SPEC, name + ".tla"], cwd=rundir, stdout=subprocess.PIPE, stderr=subprocess.STDOUT,
+                           text=True, timeout=1200)
+        out = p.stdout
+    except (subprocess.TimeoutExpired, FileNotFoundError) as e:
+        raise ToolError(f"tlapm on {name}: {e}")
+    m = re.search(r"All (\d+) obligations? proved", out)
+    if not m:
+        raise ToolError(f"TLAPS proof {name} does not go through:\n{out[-2000:]}")
+    res = {"model": "tlaps:" + name, "obligations_proved": int(m.group(1)), "wall_s": round(time.time() - t0, 1)}
+    atomic_dump(res, cache)
+    return res
+
+
+def proofs_for(prop):
+    return [run_proof(n) for n, ps in PROOFS.items() if prop in ps]
+
+
 def for_property(prop, tier):
     return [run_model(m, tier) for m in FOR_PROP.get(prop, [])]
 
